@@ -166,9 +166,8 @@ modelled! {
         match r {
             Ok(asm::ResolutionState::Resolved) => {
                 assert!(msgs(&report) == 0, "step reports Resolved although it recorded a diagnostic");
-                assert!(last, "assertion counted as resolved on a guessing pass");
                 assert!(k == 0 && b, "assertion resolved although its condition is not true");
-                kani::cover!(true, "assertion holds on the final pass");
+                kani::cover!(last, "assertion holds on the final pass");
             }
             Ok(asm::ResolutionState::Unresolved) => {
                 assert!(!last || msgs(&report) > 0, "final pass left unresolved without a diagnostic");
